@@ -17,6 +17,7 @@ package quickfix
 
 import (
 	"errors"
+	"math"
 	"strconv"
 )
 
@@ -32,15 +33,21 @@ const (
 // atoi is similar to the function in strconv, but is tuned for ints appearing in FIX field types.
 func atoi(d []byte) (int, error) {
 	if len(d) > 0 && d[0] == asciiMinus {
-		n, err := parseUInt(d[1:])
-		return (-1) * n, err
+		return parseDigits(d[1:], true)
 	}
 
-	return parseUInt(d)
+	return parseDigits(d, false)
 }
 
 // parseUInt is similar to the function in strconv, but is tuned for ints appearing in FIX field types.
 func parseUInt(d []byte) (n int, err error) {
+	return parseDigits(d, false)
+}
+
+// parseDigits parses a run of decimal digits. It accumulates in the negative range, which holds
+// one more value than the positive one, so every int (math.MinInt included) can be read back,
+// and returns an error instead of wrapping around when the value does not fit in an int.
+func parseDigits(d []byte, negative bool) (n int, err error) {
 	if len(d) == 0 {
 		err = errors.New("empty bytes")
 		return
@@ -48,14 +55,24 @@ func parseUInt(d []byte) (n int, err error) {
 
 	for _, dec := range d {
 		if dec < ascii0 || dec > ascii9 {
-			err = errors.New("invalid format")
-			return
+			return 0, errors.New("invalid format")
 		}
 
-		n = n*10 + (int(dec) - ascii0)
+		digit := int(dec) - ascii0
+		if n < (math.MinInt+digit)/10 {
+			return 0, errors.New("value out of range")
+		}
+		n = n*10 - digit
 	}
 
-	return
+	if negative {
+		return n, nil
+	}
+	if n == math.MinInt {
+		return 0, errors.New("value out of range")
+	}
+
+	return -n, nil
 }
 
 // FIXInt is a FIX Int Value, implements FieldValue.
